@@ -66,7 +66,7 @@ def run(ctx):
         ctx.log("VERIF_CORRUPT: wal cut %d: requiring an extra sample in %s" % (k + 1, s))
         must[s] = must[s] + [{"t": 99, "alts": [{"v": 1, "ty": "f"}]}]
     inp = ctx.write_ndjson("behaviours.ndjson", behs)
-    gr = ctx.go_test("tsdb", ["db_replay_test.go", "db_reopen_extras_test.go", "c03_crash_test.go", "c04_damage_test.go"],
+    gr = ctx.go_test("tsdb", ["c03_dbhelpers_test.go", "c03_crash_test.go", "c04_damage_test.go"],
                      "^TestVerifC04Damage$", env={"VERIF_IN": inp}, timeout="120m")
     import vlib
     try:
